@@ -203,3 +203,97 @@ def control(repo):
     new = src.replace(a, a.replace("SUBTRACTION", "ADDITION"), 1)
     r2 = Repo(repo.root, overlay={WI: new})
     return bool(inverse(r2).findings)
+
+
+# ---------------------------------------------------------------------------------------------------------
+# R-ALIASGUARD: a virtual field with its own [requires] is never written as a plain alias
+def _always_leaves(stmts):
+    if not stmts:
+        return False
+    last = stmts[-1]
+    if isinstance(last, (ast.Return, ast.Raise)):
+        return True
+    if isinstance(last, ast.If):
+        return bool(last.orelse) and _always_leaves(last.body) and _always_leaves(last.orelse)
+    return False
+
+
+def aliasguard(repo):
+    """An alias write method forwards TryToWrite/CouldWriteValue to the aliased field, which knows nothing of the
+    alias's own [requires].  So `write_method.alias` may be chosen only on paths where the field was found to
+    have no [requires] attribute; otherwise values the alias forbids are accepted and written."""
+    res = RuleResult("R-ALIASGUARD")
+    m = repo.mod(WI)
+    sites = []
+    for f in m.top_funcs():
+        for n in walk_no_nested_funcs(f.node):
+            if isinstance(n, ast.Call) and isinstance(n.func, ast.Attribute) and n.func.attr == "CopyFrom" \
+                    and ast.unparse(n.func.value).endswith("write_method.alias"):
+                sites.append((f, n))
+            if isinstance(n, ast.Assign) and any(ast.unparse(t).endswith("write_method.alias") for t in n.targets):
+                sites.append((f, n))
+    if not sites:
+        raise AnalysisError("write_inference: no assignment of write_method.alias found")
+
+    def is_requires_lookup(node):
+        return isinstance(node, ast.Call) and (ast.unparse(node.func).endswith("get_attribute")) \
+            and any(ast.unparse(a).endswith("REQUIRES") or (isinstance(a, ast.Constant) and a.value == "requires") for a in node.args)
+
+    for f, site in sites:
+        res.instances += 1
+        req_names = set()
+        for n in walk_no_nested_funcs(f.node):
+            if isinstance(n, ast.Assign) and is_requires_lookup(n.value):
+                req_names |= {t.id for t in n.targets if isinstance(t, ast.Name)}
+
+        def says_present(t):
+            """test is true whenever the field has a [requires]"""
+            if isinstance(t, ast.BoolOp) and isinstance(t.op, ast.Or):
+                return any(says_present(v) for v in t.values)
+            if isinstance(t, ast.Compare) and len(t.ops) == 1 and isinstance(t.ops[0], ast.IsNot) \
+                    and isinstance(t.comparators[0], ast.Constant) and t.comparators[0].value is None:
+                l = t.left
+                return (isinstance(l, ast.Name) and l.id in req_names) or is_requires_lookup(l)
+            if isinstance(t, ast.Name) and t.id in req_names:
+                return True
+            return False
+
+        def says_absent(t):
+            """test is true only when the field has no [requires]"""
+            if isinstance(t, ast.BoolOp) and isinstance(t.op, ast.And):
+                return any(says_absent(v) for v in t.values)
+            if isinstance(t, ast.Compare) and len(t.ops) == 1 and isinstance(t.ops[0], ast.Is) \
+                    and isinstance(t.comparators[0], ast.Constant) and t.comparators[0].value is None:
+                l = t.left
+                return (isinstance(l, ast.Name) and l.id in req_names) or is_requires_lookup(l)
+            if isinstance(t, ast.UnaryOp) and isinstance(t.op, ast.Not):
+                return says_present(t.operand) and not isinstance(t.operand, ast.BoolOp)
+            return False
+
+        guarded = False
+        node = site
+        while node is not f.node and not guarded:
+            parent = m.parent(node)
+            if parent is None:
+                break
+            for field in ("body", "orelse"):
+                block = getattr(parent, field, None)
+                if isinstance(block, list) and node in block:
+                    idx = block.index(node)
+                    for prev in block[:idx]:
+                        if isinstance(prev, ast.If) and says_present(prev.test) and _always_leaves(prev.body):
+                            guarded = True
+                    if isinstance(parent, ast.If):
+                        if field == "body" and says_absent(parent.test):
+                            guarded = True
+                        if field == "orelse" and says_present(parent.test):
+                            guarded = True
+            node = parent
+        if not guarded:
+            res.add(f"{WI}|{f.name}|alias-requires", f"{f.name} makes a virtual field a plain alias (write_method.alias) on a path "
+                    "that is not restricted to fields without their own [requires]: writes through such an alias are "
+                    "forwarded to the aliased field and skip the alias's requirement", WI, site.lineno, f.name)
+        else:
+            res.samples.append(f"{f.name}: alias only after the [requires] lookup {sorted(req_names)} was tested")
+    res.analysed = [WI]
+    return res
